@@ -110,7 +110,7 @@ if result["confirmed"] or "--force" in sys.argv:
 dst = f"/verif/seeded/{pid}-{n}"
 os.makedirs(dst, exist_ok=True)
 for f in ("patch.diff", "demo.diff", "demo.txt"):
-    if os.path.exists(f"{src}/{f}"):
+    if os.path.exists(f"{src}/{f}") and os.path.realpath(src) != os.path.realpath(dst):
         shutil.copy(f"{src}/{f}", dst)
 meta = {}
 if os.path.exists(f"{src}/meta.json"):
